@@ -67,7 +67,18 @@ try:
 except EOFError:
     pass
 import evh.pair as _p
-_p.CURRENT.worker_notes.append((%(tag)r, got, channel.isclosed()))
+_closed = channel.isclosed()
+try:
+    channel.send(0)
+    _send = "accepted"
+except OSError:
+    _send = "OSError"
+try:
+    channel.waitclose(0)
+    _wc = "returns"
+except Exception as _e:
+    _wc = type(_e).__name__
+_p.CURRENT.worker_notes.append((%(tag)r, got, (_closed, _send, _wc)))
 """
 W_CALLBACK_RAISES = """
 import evh.pair as _p
@@ -519,9 +530,19 @@ def run_program(prog, chooser, seed, line_budget=0, cut_w2i=None, remote_backend
         sc.stop()
 
     spare = gw.newchannel() if cut_w2i is not None else None
-    for i, c in enumerate(prog):
-        sc.spawn(user, (i, c), name=f"user{i}")
-    sc.spawn(controller, name="controller")
+    if any(c.get("reconf") for c in prog):
+        # the documented string coercion switch for the whole gateway, set before any conversation starts
+        def setup():
+            gw.reconfigure(py3str_as_py2str=True)
+            for i, c in enumerate(prog):
+                sc.spawn(user, (i, c), name=f"user{i}")
+            sc.spawn(controller, name="controller")
+
+        sc.spawn(setup, name="setup")
+    else:
+        for i, c in enumerate(prog):
+            sc.spawn(user, (i, c), name=f"user{i}")
+        sc.spawn(controller, name="controller")
     if line_budget:
         S.enable_line_preemption(sc, REPO_SRC)
     try:
@@ -613,7 +634,7 @@ def check_conversation(ck, prefix, c, o, out, ex, lossy=False):
                 ck.fail(prefix + "after-remote-error-not-EOFError:" + str(o.get("after")), ex)
     elif k == "consume":
         sm = o.get("summary")
-        if not (isinstance(sm, (tuple, list)) and len(sm) == 2 and sm[0] == "summary" and list(map(canon_item, sm[1])) == list(map(canon_item, c["items"]))):
+        if not (isinstance(sm, (tuple, list)) and len(sm) == 2 and sm[0] in ("summary", "b'summary'", b"summary") and list(map(canon_item, sm[1])) == list(map(canon_item, c["items"]))):
             ck.fail(prefix + "worker-did-not-receive-what-was-sent", ex)
         if o.get("end") != "closed" or o.get("send_after_close") != "OSError":
             ck.fail(prefix + f"after-exec-end:{o.get('end')}:{o.get('send_after_close')}", ex)
@@ -621,6 +642,9 @@ def check_conversation(ck, prefix, c, o, out, ex, lossy=False):
         notes = [n for n in out["worker_notes"] if n[0] == c["tag"] and len(n) == 3 and n[1] != "cb"]
         if len(notes) != 1 or list(map(canon_item, notes[0][1])) != list(map(canon_item, c["items"])):
             ck.fail(prefix + f"items-before-{c['end']}-not-received-then-EOF", ex)
+        elif tuple(notes[0][2]) != (True, "OSError", "returns"):
+            # the peer has observed the close (EOFError): isclosed is true, send raises OSError, waitclose returns at once
+            ck.fail(prefix + "peer-state-after-observed-close-wrong:%s" % (tuple(notes[0][2]),), ex)
         if c["end"] == "close" and (o.get("isclosed") is not True or o.get("send_after_close") != "OSError" or o.get("waitclose_after") != "returns"):
             ck.fail(prefix + "closing-side-state-wrong", ex)
     elif k == "callback_raises":
@@ -684,6 +708,16 @@ def run_property(prop, tier, seed, replay, kinds_weight, prefix_filter, rule, as
         n = nprog_quick if tier == "quick" else nprog_quick * 25
         for _ in range(n):
             prog = [gen_conversation(rng, kinds_weight, "t%d" % i) for i in range(rng.randint(1, 3))]
+            if rng.random() < 0.12:
+                # a gateway reconfigured with py3str_as_py2str=True; items without text (text would arrive as bytes)
+                prog[0]["reconf"] = True
+                for c in prog:
+                    for key in ("items", "items2"):
+                        if key in c:
+                            c[key] = [x for x in c[key] if isinstance(x, int)]
+                    if c["kind"] == "callback_raises":
+                        c["items"] = c["items"] or [0]
+                        c["bad"] = c["items"][0] if c["bad"] not in c["items"] else c["bad"]
             runs.append((prog, None, rng.getrandbits(30), rng.choice([0, 0, 4, 8])))
     nruns = 0
     escalated = [False]
